@@ -2399,14 +2399,17 @@ impl Checker {
                 if !dw.iter().any(|l| prio(l) < ph) {
                     continue;
                 }
-                if !capable(w, h)
-                    || w
-                        .snap
-                        .blocked_requests
-                        .contains(&(h.resource_rq_id, 0.into()))
-                {
+                if !capable(w, h) {
                     continue;
                 }
+                // A worker that has soft-rejected the request of h ("blocked request") still has
+                // room for it by the server's books: the scheduler then keeps the worker's free
+                // resources for h instead of handing them to lower-priority tasks. Judged like
+                // any other worker, keyed apart.
+                let blocked_here = w
+                    .snap
+                    .blocked_requests
+                    .contains(&(h.resource_rq_id, 0.into()));
                 // free before the round minus what tasks of priority >= h's take there
                 let mut free = w.free.clone();
                 let mut all_blocked = false;
@@ -2515,7 +2518,7 @@ impl Checker {
                     })
                 };
                 let key = format!(
-                    "w{}-c{}-l{}-{}-{}{}{}",
+                    "w{}-c{}-l{}-{}-{}{}{}{}",
                     workers.len().min(4),
                     classes.len().min(4),
                     levels.len().min(4),
@@ -2528,8 +2531,19 @@ impl Checker {
                         "-withingap"
                     } else {
                         "-beyondgap"
+                    },
+                    // (an inversion involving the `all` policy, or one within the gap, happens
+                    // on idle workers too: whether the request was blocked there adds nothing to
+                    // its description)
+                    if blocked_here && !any_all && !(within_gap && !same_class) {
+                        "-requestblockedthere"
+                    } else {
+                        ""
                     }
                 );
+                if blocked_here {
+                    self.probes.hit("c15_inversion_on_worker_that_blocked_the_request");
+                }
                 // an inversion of the known kind must not hide another one of the same round
                 if within_gap && !same_class {
                     if deferred.is_none() {
